@@ -494,6 +494,7 @@ def run(chk):
     matrix = {d: {k: [0, 0] for k in kinds} for d in analyzers}            # dialect -> statement type -> [accepted, total]
     rules_used = collections.defaultdict(collections.Counter)               # dialect -> rule -> count
     rule_misplaced = collections.Counter()                                  # rule fired under a dialect it is not listed for
+    rule_without_class = collections.Counter()                              # finding-kind rule fired on a statement outside its class
     unlisted_shape = collections.defaultdict(list)                          # (dialect, diff) -> [sql]
     shape_ok = collections.Counter()
     noncore = collections.Counter()
@@ -524,8 +525,11 @@ def run(chk):
                 rules_used[d][rule] += 1
                 if d not in RULE_DIALECTS.get(rule, []):
                     rule_misplaced[(rule, d)] += 1
-                if RULE_KIND.get(rule) == "noncore":
+                kind = RULE_KIND.get(rule, "")
+                if kind == "noncore":
                     excluded.add(d)
+                elif kind.startswith("finding:") and kind.split(":")[1] not in info["classes"]:
+                    rule_without_class[(rule, d)] += 1          # the Lean class predicate should cover every statement the rule fires on
             diff = None if d in excluded else first_diff(sh, info["shape"])
             if d in excluded:
                 pass
@@ -652,6 +656,7 @@ def run(chk):
             "allow_list": [{"rule": r[0], "dialects": r[1], "kind": r[3], "what": r[4]} for r in SHAPE_RULES],
             "normalisations_used": {d: dict(c) for d, c in rules_used.items()},
             "rules_fired_outside_their_dialects": {f"{r}@{d}": n for (r, d), n in rule_misplaced.items()},
+            "finding_rules_fired_outside_their_class": {f"{r}@{d}": n for (r, d), n in rule_without_class.items()},
             "unlisted_shape_differences": unlisted_list,
             "non_core_readings_excluded": dict(noncore),
             "non_core_identifiers_replaced": NON_CORE_IDENTIFIERS,
